@@ -23,6 +23,23 @@ theorem atomBytes_length_le (s : Step) (bs : Bytes) (hs : ∀ b, s ≠ .slice b)
       rw [this] at h; cases h
   | slice b => exact absurd rfl (hs b)
 
+/-- dropping leading empty slices changes nothing that will be produced -/
+theorem flattenSteps_dropEmptySlices : ∀ (l : List Step), flattenSteps (dropEmptySlices l) = flattenSteps l := by
+  intro l
+  induction l with
+  | nil => rfl
+  | cons s rest ih =>
+    cases s with
+    | slice b =>
+      cases b with
+      | nil =>
+        show flattenSteps (dropEmptySlices rest) = flattenSteps (Step.slice [] :: rest)
+        rw [ih]
+        simp only [flattenSteps, atomBytes]
+        cases flattenSteps rest <;> simp
+      | cons x xs => rfl
+    | _ => rfl
+
 /-- one call: output ++ what the remaining steps will produce = what the steps produce; no error -/
 theorem encodeCall_flatten (steps : List Step) (free : Nat) (bs : Bytes)
     (h : flattenSteps steps = some bs) :
@@ -42,7 +59,7 @@ theorem encodeCall_flatten (steps : List Step) (free : Nat) (bs : Bytes)
         simp [ha, hr] at h; subst h
         by_cases hf : free < 4
         · refine ⟨a ++ rb, ?_⟩
-          simp [encodeCall, hf, flattenSteps, ha, hr]
+          simp [encodeCall, hf, flattenSteps_dropEmptySlices, flattenSteps, ha, hr]
         · cases s with
           | slice b =>
             simp only [atomBytes] at ha; injection ha with ha; subst ha
@@ -121,6 +138,21 @@ def stepWeight : Step → Nat
 
 def stepsWeight (steps : List Step) : Nat := (steps.map stepWeight).sum
 
+theorem stepsWeight_dropEmptySlices : ∀ (l : List Step), stepsWeight (dropEmptySlices l) ≤ stepsWeight l := by
+  intro l
+  induction l with
+  | nil => exact Nat.le_refl _
+  | cons s rest ih =>
+    cases s with
+    | slice b =>
+      cases b with
+      | nil =>
+        show stepsWeight (dropEmptySlices rest) ≤ stepsWeight (Step.slice [] :: rest)
+        have : stepsWeight (Step.slice [] :: rest) = stepWeight (Step.slice []) + stepsWeight rest := by simp [stepsWeight]
+        omega
+      | cons x xs => exact Nat.le_refl _
+    | _ => exact Nat.le_refl _
+
 /-- a call with at least 4 free bytes strictly decreases the measure (or there was nothing to do) -/
 theorem encodeCall_progress (steps : List Step) (free : Nat) (hf : 4 ≤ free) (hne : steps ≠ []) :
     stepsWeight (encodeCall steps free).2.1 < stepsWeight steps := by
@@ -135,7 +167,7 @@ theorem encodeCall_progress (steps : List Step) (free : Nat) (hf : 4 ≤ free) (
       | cons t l ihl =>
         intro fr
         by_cases h4 : fr < 4
-        · simp [encodeCall, h4]
+        · simp only [encodeCall, h4, ↓reduceIte]; exact stepsWeight_dropEmptySlices _
         · cases t with
           | slice b =>
             simp only [encodeCall, h4, ↓reduceIte]
@@ -213,5 +245,90 @@ theorem encodeRun_correct (fuel : Nat) (steps : List Step) (caps : List (Nat × 
         ((encodeCall steps (capFree (headCap caps))).1 :: acc) tail h2 hcaps' (by omega)
       refine ⟨this.1, ?_⟩
       rw [this.2, h3]; simp
+
+/-! ### a packet whose last byte has been written is complete -/
+
+/-- every step but an empty slice emits at least one byte -/
+theorem atomBytes_ne_nil (s : Step) (hs : s ≠ .slice []) (a : Bytes) (h : atomBytes s = some a) : a ≠ [] := by
+  cases s with
+  | u8 v => simp only [atomBytes, Option.some.injEq] at h; rw [← h]; exact List.cons_ne_nil _ _
+  | u16 v => simp only [atomBytes, Option.some.injEq] at h; rw [← h]; simp [u16be]
+  | u32 v => simp only [atomBytes, Option.some.injEq] at h; rw [← h]; simp [u32be]
+  | vli v =>
+    simp only [atomBytes, encodeVli] at h
+    split at h
+    · cases h
+    · simp only [Option.some.injEq] at h
+      rw [← h]
+      simp only [encodeVliLoop]
+      split <;> exact List.cons_ne_nil _ _
+  | slice b =>
+    simp only [atomBytes, Option.some.injEq] at h
+    subst h
+    intro hb; exact hs (by rw [hb])
+
+theorem dropEmptySlices_head : ∀ (l : List Step), dropEmptySlices l = [] ∨ ∃ s rest, dropEmptySlices l = s :: rest ∧ s ≠ .slice [] := by
+  intro l
+  induction l with
+  | nil => exact .inl rfl
+  | cons s rest ih =>
+    cases s with
+    | slice b =>
+      cases b with
+      | nil => exact ih
+      | cons x xs => exact .inr ⟨_, _, rfl, fun h => by cases h⟩
+    | u8 v => exact .inr ⟨_, _, rfl, fun h => by cases h⟩
+    | u16 v => exact .inr ⟨_, _, rfl, fun h => by cases h⟩
+    | u32 v => exact .inr ⟨_, _, rfl, fun h => by cases h⟩
+    | vli v => exact .inr ⟨_, _, rfl, fun h => by cases h⟩
+
+theorem flatten_nil_of_head (s : Step) (rest : List Step) (hs : s ≠ .slice []) : flattenSteps (s :: rest) ≠ some [] := by
+  intro h
+  simp only [flattenSteps] at h
+  cases ha : atomBytes s with
+  | none => simp [ha] at h
+  | some a =>
+    cases hr : flattenSteps rest with
+    | none => simp [ha, hr] at h
+    | some rb =>
+      simp only [ha, hr, Option.some.injEq] at h
+      have := atomBytes_ne_nil s hs a ha
+      cases a with
+      | nil => exact this rfl
+      | cons x xs => cases h
+
+/-- **What a call leaves behind still has a byte to emit**: when the steps that remain after `Encoder::encode` produce nothing
+    more, there are none - the packet is reported complete by the very call that wrote its last byte (an empty payload or an
+    empty string at the end of a packet needs no room in the buffer). -/
+theorem encodeCall_rest_has_bytes : ∀ (steps : List Step) (free : Nat), (encodeCall steps free).2.2 = false →
+    flattenSteps (encodeCall steps free).2.1 = some [] → (encodeCall steps free).2.1 = [] := by
+  intro steps
+  induction steps with
+  | nil => intro free _ _; rfl
+  | cons s rest ih =>
+    intro free hok h
+    unfold encodeCall at h hok ⊢
+    by_cases hf : free < 4
+    · simp only [hf, ↓reduceIte] at h ⊢
+      rcases dropEmptySlices_head (s :: rest) with a | ⟨t, l, hl, ht⟩
+      · exact a
+      · rw [hl] at h; exact absurd h (flatten_nil_of_head t l ht)
+    · simp only [hf, ↓reduceIte] at h hok ⊢
+      cases s with
+      | slice b =>
+        simp only [] at h hok ⊢
+        cases hd : List.drop free b with
+        | nil => simp only [hd] at h hok ⊢; exact ih _ hok h
+        | cons x xs =>
+          simp only [hd] at h ⊢
+          exact absurd h (flatten_nil_of_head _ _ (fun hh => by cases hh))
+      | u8 v => simp only [atomBytes] at h hok ⊢; exact ih _ hok h
+      | u16 v => simp only [atomBytes] at h hok ⊢; exact ih _ hok h
+      | u32 v => simp only [atomBytes] at h hok ⊢; exact ih _ hok h
+      | vli v =>
+        simp only [atomBytes] at h hok ⊢
+        cases hv : encodeVli v with
+        | none => simp only [hv] at hok; cases hok
+        | some bs => simp only [hv] at h hok ⊢; exact ih _ hok h
 
 end GV
